@@ -44,7 +44,15 @@ def impl_counts(rows, lag, sliding, max_n, form, dtype='int64', lag_type='int', 
     except Exception as e:  # noqa
         return {'error': type(e).__name__}
     after = (a._data.tobytes(), a.lengths.tobytes()) if form == 'ragged' else (a.tobytes(),)
-    out = {'ok': np.asarray(C.toarray()).tolist(), 'shape': list(C.shape)}
+    if C.shape[0] > 2000:
+        # too large to densify: canonical sparse form (duplicates summed)
+        Cs = C.tocsr()
+        Cs.sum_duplicates()
+        Cc = Cs.tocoo()
+        out = {'sparse': sorted((int(i), int(j), int(v)) for i, j, v in zip(Cc.row, Cc.col, Cc.data) if v != 0),
+               'shape': list(C.shape)}
+    else:
+        out = {'ok': np.asarray(C.toarray()).tolist(), 'shape': list(C.shape)}
     if after != snap:
         out['modified'] = True
     return out
@@ -53,13 +61,15 @@ def impl_counts(rows, lag, sliding, max_n, form, dtype='int64', lag_type='int', 
 def check_case(ctx, case, model_resp):
     rows, lag, sliding, max_n = case['rows'], case['lag'], case['sliding'], case['max_n']
     n = max_n if max_n is not None else max(max(r) for r in rows) + 1
+    if n > 2000:
+        return check_case_sparse(ctx, case, n)
     ref = ref_counts(rows, lag, sliding, n)
     npairs = int(ref.sum())
     forms = {}
     dt = case.get('dtype', 'int64')
     lt = case.get('lag_type', 'int')
     pos = case.get('positional', False)
-    for form in ('ragged', 'padded'):
+    for form in (('ragged',) if case.get('ragged_only') else ('ragged', 'padded')):
         forms[form] = impl_counts(rows, lag, sliding, max_n, form, dt, lt, pos)
     perm = list(ctx.rng.permutation(len(rows)))
     forms['permuted'] = impl_counts([rows[i] for i in perm], lag, sliding, max_n, 'ragged', dt, lt, pos)
@@ -124,6 +134,49 @@ def gen_wide_case(rng):
             'dtype': dtype, 'lag_type': 'np' if rng.random() < 0.5 else 'int', 'positional': bool(rng.integers(0, 2))}
 
 
+def gen_unsigned_case(rng):
+    """unsigned dtypes (ragged form only: they cannot hold the -1 padding) with state ids at the top of the
+    dtype's range, where a wrapped pad value (-1 -> 255 / 65535) would be confused with a real state"""
+    dtype = ['uint8', 'uint16'][int(rng.integers(0, 2))]
+    top = 255 if dtype == 'uint8' else 65535
+    ids = [top, top - 1, 0, 1, int(rng.integers(0, top))]
+    nrows = int(rng.integers(1, 4))
+    rows = [[int(ids[int(k)]) for k in rng.integers(0, len(ids), size=int(rng.integers(1, 12)))] for _ in range(nrows)]
+    rows[0][int(rng.integers(0, len(rows[0])))] = top
+    lag = int(rng.integers(1, 4))
+    return {'rows': rows, 'lag': lag, 'sliding': bool(rng.integers(0, 2)),
+            'max_n': None if (dtype == 'uint8' and rng.random() < 0.5) else top + 1,
+            'dtype': dtype, 'lag_type': 'int', 'positional': False, 'ragged_only': True}
+
+
+def check_case_sparse(ctx, case, n):
+    """state counts too large for a dense table (and for the Lean model): sparse reference only"""
+    rows, lag, sliding = case['rows'], case['lag'], case['sliding']
+    ref = {}
+    for r in rows:
+        r = [x for x in r if x != -1]
+        for t in range(0, len(r) - lag, 1 if sliding else lag):
+            ref[(r[t], r[t + lag])] = ref.get((r[t], r[t + lag]), 0) + 1
+    refl = sorted((i, j, v) for (i, j), v in ref.items())
+    ctx.case(case, nontrivial=bool(refl), tags=['model-skipped-large-n', 'dtype=%s' % case.get('dtype', 'int64')])
+    for form in (('ragged',) if case.get('ragged_only') else ('ragged', 'padded')):
+        got = impl_counts(rows, lag, sliding, case['max_n'], form, case.get('dtype', 'int64'),
+                          case.get('lag_type', 'int'), case.get('positional', False))
+        if 'error' in got:
+            ctx.violation('assigns_to_counts raised %s on valid input (%s form)' % (got['error'], form), dict(case, form=form))
+            return
+        if got.get('modified'):
+            ctx.violation('assigns_to_counts modified its input (%s form)' % form, dict(case, form=form))
+            return
+        if got['shape'] != [n, n]:
+            ctx.violation('count matrix shape %s != (%d,%d) (%s form)' % (got['shape'], n, n, form), dict(case, form=form))
+            return
+        if [list(x) for x in got.get('sparse', [])] != [list(x) for x in refl]:
+            ctx.violation('count matrix differs from the number of lagged pairs (%s form, sparse comparison)' % form,
+                          dict(case, form=form, got=got.get('sparse', [])[:20], expected=refl[:20]))
+            return
+
+
 def gen_case(rng, big=False):
     c = _gen_case(rng, big)
     c['dtype'] = DTYPES[int(rng.integers(0, len(DTYPES)))] if rng.random() < 0.5 else 'int64'
@@ -173,6 +226,7 @@ def run(ctx):
     slice_scope(ctx)
     cases = [gen_case(ctx.rng) for _ in range(ctx.n(500, 6000))]
     cases += [gen_wide_case(ctx.rng) for _ in range(ctx.n(40, 600))]
+    cases += [gen_unsigned_case(ctx.rng) for _ in range(ctx.n(12, 120))]
     if ctx.thorough:
         cases += [gen_case(ctx.rng, big=True) for _ in range(1000)]
         # every (len, lag) residue for single rows
@@ -181,11 +235,30 @@ def run(ctx):
                 for sl in (True, False):
                     cases.append({'rows': [[int(x) for x in ctx.rng.integers(0, 3, size=L)]],
                                   'lag': lag, 'sliding': sl, 'max_n': 3})
+    def _n(c):
+        return c['max_n'] if c['max_n'] is not None else max(max(r) for r in c['rows']) + 1
+    small = [c for c in cases if _n(c) <= 2000]
     reqs = [{'op': 'C03.counts', 'rows': c['rows'], 'lag': c['lag'], 'sliding': c['sliding'],
-             'max_n': c['max_n']} for c in cases]
+             'max_n': c['max_n']} for c in small]
     resp = ctx.driver(reqs)
-    for c, r in zip(cases, resp):
+    for c, r in zip(small, resp):
         check_case(ctx, c, r)
+    for c in cases:
+        if _n(c) > 2000:
+            check_case(ctx, c, None)
+    # no trajectory at all: the code raises (np.hstack of nothing); the model must reject it too
+    from enspara.msm.transition_matrices import assigns_to_counts
+    for max_n in (None, 3):
+        try:
+            assigns_to_counts(np.zeros((0, 5), dtype=int), lag_time=1, max_n_states=max_n)
+            real = 'ok'
+        except Exception as e:  # noqa
+            real = 'error'
+        m = ctx.driver([{'op': 'C03.counts', 'rows': [], 'lag': 1, 'sliding': True, 'max_n': max_n}])[0]
+        ctx.case({'rows': [], 'lag': 1, 'max_n': max_n}, nontrivial=False, tags=['no-rows'])
+        if ('error' in m) != (real == 'error'):
+            ctx.disagreement('Model.Counts.assignsToCounts vs assigns_to_counts on an input with no trajectory',
+                             {'rows': [], 'max_n': max_n, 'model': m, 'impl': real})
     # MSM.fit(...).tcounts_ goes through the same counting function
     from enspara.msm import MSM, builders
     for c in cases[:ctx.n(30, 300)]:
@@ -215,6 +288,7 @@ def replay(ctx, data):
         if r.get('ok') != e:
             ctx.disagreement('Model.PySlice.indices vs CPython slice.indices', data)
         return
-    c = {k: data[k] for k in ('rows', 'lag', 'sliding', 'max_n', 'dtype', 'lag_type', 'positional') if k in data}
-    r = ctx.driver([{'op': 'C03.counts', 'rows': c['rows'], 'lag': c['lag'], 'sliding': c['sliding'], 'max_n': c['max_n']}])[0]
+    c = {k: data[k] for k in ('rows', 'lag', 'sliding', 'max_n', 'dtype', 'lag_type', 'positional', 'ragged_only') if k in data}
+    nn = c['max_n'] if c['max_n'] is not None else max(max(r) for r in c['rows']) + 1
+    r = None if nn > 2000 else ctx.driver([{'op': 'C03.counts', 'rows': c['rows'], 'lag': c['lag'], 'sliding': c['sliding'], 'max_n': c['max_n']}])[0]
     check_case(ctx, c, r)
